@@ -111,10 +111,16 @@ Definition fmt_args : Type := (text * text)%type.
 Definition model_format (a : fmt_args) : list redit :=
   let e := format_edit (fst a) (snd a) in
   [(p_line (e_start e), p_char (e_start e), p_line (e_end e), p_char (e_end e), e_new e)].
+(** group [format] (the property on this input): the real edits applied to the text give the fix *)
 Definition check_format (a : fmt_args) (exp : list redit) : bool :=
-  list_eqb edit_eqb (map to_edit (model_format a)) (map to_edit exp)
-  && opt_eqb str_eqb (apply_edits (fst a) (map to_edit exp)) (Some (snd a)).
+  opt_eqb str_eqb (apply_edits (fst a) (map to_edit exp)) (Some (snd a)).
 Definition case_t_format : Type := (N * fmt_args * list redit)%type.
+(** group [fmtedit] (the tie): the model's edit is the real one *)
+Definition check_fmtedit (a : fmt_args) (exp : list redit) : bool :=
+  list_eqb edit_eqb (map to_edit (model_format a)) (map to_edit exp).
+Definition case_t_fmtedit : Type := case_t_format.
+Definition model_apply (a : fmt_args * list redit) : option text :=
+  apply_edits (fst (fst a)) (map to_edit (snd a)).
 
 (** group [docend]: [end_of_document] on arbitrary texts |-> (line, character) *)
 Definition model_docend (t : text) : N * N := (p_line (doc_end t), p_char (doc_end t)).
